@@ -205,7 +205,7 @@ def check(case):
         if case["entry"] == "arr":
             rows = kal.align_arr(seqs, cfg, variant=variant)["rows"]
         else:
-            rows = kal.align_named(["s%d" % i for i in range(len(seqs))], seqs, cfg, variant=variant)["rows"]
+            rows = kal.align_named(kal.auto_headers(["s%d" % i for i in range(len(seqs))], seqs), seqs, cfg, variant=variant)["rows"]
     except kal.Failure as f:
         if f.ended.kind == "hang":
             return engine.discard("cpu-limit (inconclusive; hangs are judged by C05)")
